@@ -25,6 +25,15 @@ func seedFromEnv(def uint64) uint64 {
 }
 
 func main() {
+	defer func() {
+		if r := recover(); r != nil {
+			if ht, ok := r.(sim.HarnessTrouble); ok {
+				fmt.Fprintln(os.Stderr, "tabsim: HARNESS TROUBLE", ht.Msg)
+				os.Exit(2)
+			}
+			panic(r)
+		}
+	}()
 	if len(os.Args) < 2 {
 		fmt.Fprintln(os.Stderr, "usage: tabsim check <id> <quick|thorough> | replay <file> | worker ... | gen <id> <idx> | selftest")
 		os.Exit(2)
@@ -82,6 +91,38 @@ func main() {
 			fmt.Fprintln(os.Stderr, err)
 			os.Exit(2)
 		}
+	case "raceworker":
+		fs := flag.NewFlagSet("raceworker", flag.ExitOnError)
+		prop := fs.String("prop", "", "")
+		tier := fs.String("tier", "quick", "")
+		seed := fs.Uint64("seed", 1, "")
+		lo := fs.Int("lo", 0, "")
+		hi := fs.Int("hi", 0, "")
+		stride := fs.Int("stride", 1, "")
+		budget := fs.Int("budget", 0, "")
+		fs.Parse(os.Args[2:])
+		e := sim.EngineFor(*prop)
+		if e == nil {
+			os.Exit(2)
+		}
+		var deadline time.Time
+		if *budget > 0 {
+			deadline = time.Now().Add(time.Duration(*budget) * time.Second)
+		}
+		sim.RunRaceWorker(e, *tier, *seed, *lo, *hi, *stride, deadline)
+	case "raceone":
+		tries := 1
+		if len(os.Args) > 3 {
+			tries, _ = strconv.Atoi(os.Args[3])
+		}
+		os.Exit(sim.RunRaceOne(os.Args[2], tries))
+	case "selftest":
+		exe, _ := os.Executable()
+		n := 200
+		if len(os.Args) > 2 {
+			n, _ = strconv.Atoi(os.Args[2])
+		}
+		os.Exit(sim.RunSelfTest(exe, n))
 	case "gen":
 		e := sim.EngineFor(os.Args[2])
 		idx, _ := strconv.Atoi(os.Args[3])
